@@ -37,6 +37,7 @@ partial def pItem : P Item := do
   | "v" => pure (.emitVar (← num))
   | "set" => do let v ← num; pure (.setVar v (← tok))
   | "mac" => do let v ← num; pure (.defMacro v (← tok))
+  | "macv" => do let m ← num; pure (.defMacroV m (← num))
   | "imp" => do let t ← num; pure (.importAs t (← num))
   | "from" => do let t ← num; let n ← num; pure (.fromImport t n (← num))
   | "attr" => do let v ← num; pure (.emitAttr v (← num))
